@@ -1,9 +1,15 @@
 #!/bin/sh
-# Offline setup: make sure hypothesis is importable by /venv/bin/python.
+# Offline setup: make sure hypothesis is importable by /venv/bin/python, and
+# put atheris (used by the C08 fuzz check only) under .deps; both come from
+# the local wheelhouse, nothing is fetched.
 cd "$(dirname "$0")/.." || exit 1
 if ! /venv/bin/python -c "import hypothesis" 2>/dev/null; then
   /venv/bin/pip install --no-index --find-links /opt/veriftools/wheels hypothesis || \
   /venv/bin/pip install --no-index --find-links /opt/veriftools/wheels --target .deps hypothesis || exit 1
+fi
+if ! PYTHONPATH=.deps /venv/bin/python -c "import atheris" 2>/dev/null; then
+  # optional: without it the fuzz check reports that atheris is missing and judges two fixed inputs
+  /venv/bin/pip install -q --no-index --find-links /opt/veriftools/wheels --target .deps atheris >/dev/null 2>&1 || echo "atheris not installed (C08 fuzz check will be skipped)"
 fi
 /venv/bin/python -c "import hypothesis, jinja2; print('hypothesis', hypothesis.__version__)" || exit 1
 mkdir -p evidence out/replays
